@@ -419,3 +419,172 @@ def random_scenario(rng, block, opts=None, n_events=None):
     f = Flows(rng, block, opts)
     f.build(n_events if n_events is not None else rng.randrange(3, 12))
     return f
+
+
+# ----------------------------------------------------------------------------- dedicated histories
+def dialog_history(rng, block, n_dialogs=None, n_backends=None, opts=None):
+    """C04: concurrent dialogs over several backends; responses come from a backend address;
+    in-dialog requests of every method in both directions; unrelated traffic in between."""
+    o = dict(opts or {})
+    o.setdefault("backends", n_backends or rng.randrange(2, 7))
+    o.setdefault("names", b"svc.example.com")
+    o.setdefault("tcp", False)
+    o.setdefault("two_listeners", False)
+    o.setdefault("routes", 1)
+    o.setdefault("tcphops", False)
+    f = Flows(rng, block, o)
+    s, r = f.s, rng
+    nd = n_dialogs or r.randrange(1, 8)
+    rot = 0                              # the generator's own guess of the rotation (only used to pick who answers)
+    dialogs = []
+    steps = []
+    for d in range(nd):
+        same = r.random() < 0.25
+        ua_uri = r.choice([b"sip:alice%d@a.example" % d, b"tel:+1555%03d" % d, b"sip:same@h.example" if same else b"sip:u-%d@h-1.example:5070" % d])
+        ub_uri = b"sip:same@h.example" if same else r.choice([b"sip:bob@svc.example.com", b"sip:bob%d@b.example" % d, b"urn:x:%d" % d])
+        dialogs.append({"callid": b"dlg-%d-%s" % (d, tok(r, 1, 4, b"-")), "ta": tok(r, 1, 5, b"-"), "tb": tok(r, 1, 5, b"-"),
+                        "ua": ua_uri, "ub": ub_uri, "state": 0, "method": r.choice([b"INVITE", b"INVITE", b"INVITE", b"SUBSCRIBE"])})
+    budget = nd * r.randrange(4, 9)
+    while budget > 0:
+        budget -= 1
+        d = r.choice(dialogs)
+        k = r.random()
+        if k < 0.15:
+            f.to_service(method=r.choice([b"OPTIONS", b"MESSAGE", b"REGISTER", b"INVITE"]))       # unrelated, advances the rotation
+            rot += 1
+            continue
+        if k < 0.2:
+            f.static_request()
+            continue
+        if d["state"] == 0:
+            # initial request
+            ua = r.choice(f.uas)
+            frm, to = f.ft(d["ua"], d["ta"], r.random() < 0.5), f.ft(d["ub"], None, r.random() < 0.5)
+            data, hs = f.request(d["method"], f.service_uri(True), ua, frm, to, d["callid"])
+            e = s.ev_udp(f.li, ua, data)
+            rot += 1
+            d.update({"state": 1, "e": e, "hs": hs, "frm": frm, "to": to})
+        elif d["state"] == 1:
+            # the backend answers (provisional without / with tag, then final)
+            code = r.choice([100, 180, 183, 200, 200, 200])
+            b = d.get("answered") or r.choice(f.backends)
+            p = {"e": d["e"], "hs": d["hs"], "ua": None, "method": d["method"], "callid": d["callid"], "frm": d["frm"],
+                 "to": d["to"], "totag": d["tb"]}
+            f.backend_response(p, code=code, from_backend=b, add_to_tag=True)
+            if code >= 180:
+                d["answered"] = b
+            if code >= 200:
+                d["state"] = 2
+        else:
+            # in-dialog request, either direction, any method
+            frm, to = f.ft(d["ua"], d["ta"], True), f.ft(d["ub"], d["tb"], True)
+            if r.random() < 0.5:
+                frm, to = to, frm
+            ua = r.choice(f.uas)
+            method = r.choice([b"ACK", b"BYE", b"INVITE", b"UPDATE", b"INFO", b"NOTIFY", b"SUBSCRIBE", b"MESSAGE", b"PRACK", b"REFER"])
+            extra = None
+            if method == b"NOTIFY":
+                extra = [(b"Subscription-State", r.choice([b"active;expires=60", b"terminated", b"terminated;reason=timeout", b"pending"])),
+                         (b"Event", b"presence")]
+            data, hs = f.request(method, f.service_uri(True), ua, frm, to, d["callid"], extra=extra)
+            e = s.ev_udp(f.li, ua, data)
+            if method == b"BYE" and r.random() < 0.7 and d.get("answered"):
+                # the backend answers the BYE: the dialog is over
+                p = {"e": e, "hs": hs, "ua": None, "method": b"BYE", "callid": d["callid"], "frm": frm, "to": to, "totag": None}
+                f.backend_response(p, code=200, from_backend=d["answered"], add_to_tag=False)
+                d["state"] = 3
+        if d["state"] == 3:
+            dialogs.remove(d)
+            if not dialogs:
+                break
+    return f
+
+
+def tcp_history(rng, block, opts=None):
+    """C12: several client connections from one address, same or different sent-by, interleaved
+    transactions answered by UDP backends (1xx before 2xx, delayed, reordered)."""
+    o = dict(opts or {})
+    o.update({"tcp": True, "backends": rng.randrange(1, 4), "names": b"svc.example.com", "two_listeners": False, "routes": 0,
+              "tcphops": False})
+    f = Flows(rng, block, o)
+    s, r = f.s, rng
+    nconn = r.randrange(2, 6)
+    src_ip = s.ip(22)
+    conns = []
+    for c in range(nconn):
+        s.ev_accept(f.li, src_ip, 41000 + c)
+        sentby = r.choice([src_ip + b":5060", src_ip + b":5060", src_ip + b":%d" % (5070 + c), src_ip])
+        conns.append({"cid": c, "sentby": sentby})
+    open_tx = []
+    n = 0
+    budget = r.randrange(6, 25)
+    l = s.listens[f.li]
+    while budget > 0:
+        budget -= 1
+        if open_tx and r.random() < 0.55:
+            t = r.choice(open_tx)
+            code = r.choice([100, 180, 200, 200, 404]) if not t["prov"] else r.choice([180, 200, 200, 486])
+            hs = [(b"Via", b"SIP/2.0/UDP " + l["addr"] + b":%d;branch=" % l["udp"] + placeholder(t["e"])),
+                  (b"Via", t["via"]), (b"From", t["frm"]), (b"To", t["to"] + (b";tag=bt%d" % t["n"] if code > 100 else b"")),
+                  (b"Call-ID", t["callid"]), (b"CSeq", t["cseq"])]
+            b = r.choice(f.backends)
+            ip, port = b.split(b":")
+            s.ev_udp(f.li, (ip, int(port)), msg(b"SIP/2.0 %d X" % code, hs))
+            t["prov"] = True
+            if code >= 200:
+                open_tx.remove(t)
+            continue
+        c = r.choice(conns)
+        n += 1
+        method = r.choice([b"INVITE", b"OPTIONS", b"MESSAGE", b"REGISTER"])
+        rp = r.choice([b"", b";rport"])
+        via = b"SIP/2.0/TCP " + c["sentby"] + b";branch=z9hG4bK-c%d-%d" % (c["cid"], n) + rp
+        # what an honest backend echoes: the entry as the proxy relayed it (stamped when received-support is on)
+        echoed = via
+        if not l["no_received"]:
+            echoed = b"SIP/2.0/TCP " + c["sentby"] + b";branch=z9hG4bK-c%d-%d" % (c["cid"], n) + \
+                     (b";rport=%d" % (41000 + c["cid"]) if rp else b"") + b";received=" + src_ip
+        frm, to = b"<sip:u%d@a.example>;tag=f%d" % (c["cid"], n), b"<sip:bob@svc.example.com>"
+        callid, cseq = b"tc-%d-%d" % (c["cid"], n), b"%d " % n + method
+        data = msg(method + b" sip:bob@svc.example.com SIP/2.0",
+                   [(b"Via", via), (b"From", frm), (b"To", to), (b"Call-ID", callid), (b"CSeq", cseq)], body_bytes(r))
+        e = s.ev_data(c["cid"], data)
+        open_tx.append({"e": e, "via": echoed if r.random() < 0.9 else via, "frm": frm, "to": to, "callid": callid, "cseq": cseq, "n": n, "prov": False})
+    return f
+
+
+def respell_relayout(rng, data):
+    """C17: the same message with every header name independently respelled and the Via / Route /
+    Record-Route lists re-laid-out (split into lines or joined), order of entries kept"""
+    sep = data.find(b"\r\n\r\n")
+    if sep < 0:
+        return data
+    lines = data[:sep].split(b"\r\n")
+    out = [lines[0]]
+    hs = []
+    for l in lines[1:]:
+        if b":" not in l:
+            return data
+        n, v = l.split(b":", 1)
+        hs.append((n, v.strip()))
+    i = 0
+    while i < len(hs):
+        n, v = hs[i]
+        canon = {b"v": b"Via", b"via": b"Via", b"route": b"Route", b"record-route": b"Record-Route"}.get(n.lower())
+        if canon:
+            # gather the run of consecutive lines of this header
+            entries = []
+            while i < len(hs) and {b"v": b"Via", b"via": b"Via", b"route": b"Route", b"record-route": b"Record-Route"}.get(hs[i][0].lower()) == canon:
+                entries += [x.strip() for x in hs[i][1].split(b",")]
+                i += 1
+            j = 0
+            while j < len(entries):
+                k = rng.randrange(1, len(entries) - j + 1) if rng.random() < 0.5 else 1
+                out.append(spell(rng, canon, rng.randrange(5)) + b": " + b",".join(entries[j:j + k]))
+                j += k
+        else:
+            full = {b"f": b"From", b"t": b"To", b"i": b"Call-ID", b"l": b"Content-Length", b"m": b"Contact", b"c": b"Content-Type",
+                    b"k": b"Supported", b"s": b"Subject", b"o": b"Event"}.get(n.lower(), n)
+            out.append(spell(rng, full, rng.randrange(5)) + b": " + v)
+            i += 1
+    return b"\r\n".join(out) + data[sep:]
